@@ -90,7 +90,9 @@ def _run_history(sp, prog, requested, others, call, A, e, n_calls, kind, spec, e
             expected[n0] = list(prog[n0].grad._flat()) if prog[n0].grad is not None else None
         had = {n: prog[n].grad is not None for n in requested}
         gid = {n: id(prog[n].grad._storage) if prog[n].grad is not None else None for n in requested}
-        call()
+        _, failed = valid_call(call, cex, "call_on_valid_arguments_succeeds")
+        if failed:
+            return obs + failed
         hist.append("call")
         if len(A.seen) <= c:
             return obs + [Ob("requested_grads_receive_the_update", False, cex)]  # the aggregator was not even called: nothing was deposited
